@@ -236,6 +236,8 @@ func (dw *DiskWriter) requestAsyncFileData(p, dest string, fi os.FileInfo, st *t
 		}); err != nil {
 			return err
 		}
+		// writing the content drops security.capability again
+		rewriteXattrs(dest, st)
 		return chtimes(dest, st.ModTime) // TODO: parent dirs
 	})
 }
